@@ -653,6 +653,21 @@ def run_case(case):
                 elif not (o2.startswith('Eval error') or o2.startswith('Error parsing')):
                     viol.append(V('C13:bad-expression-not-reported', f'{cn}: print {e!r} answered {o2[:80]!r} instead of an '
                                   'evaluation error', text=text, expr=e))
+            # whole arrays and whole records (the debugger renders them): nothing is demanded of the text, only that the
+            # debugger survives and the machine stays untouched (ask() compares the state digests)
+            for an, dims in names['arrays'][:4]:
+                for e in (an, f'{an}()', f'{an}(' + ', '.join(str(d[0]) for d in dims) + ')'):
+                    st['aggregate_probes'] = st.get('aggregate_probes', 0) + 1
+                    o2, x2 = ask(e)
+                    if x2 is not None:
+                        viol.append(V(f'C13:print-crash:{rt.crash_sig(x2)}', f'{cn}: print {e!r} (whole array / first element): '
+                                      f'{type(x2).__name__}: {x2}', text=text, expr=e))
+            for rn in names['records'][:3]:
+                st['aggregate_probes'] = st.get('aggregate_probes', 0) + 1
+                o2, x2 = ask(rn)
+                if x2 is not None:
+                    viol.append(V(f'C13:print-crash:{rt.crash_sig(x2)}', f'{cn}: print {rn!r} (whole record): {type(x2).__name__}: {x2}',
+                                  text=text, expr=rn))
             for e in BUILTIN_PROBES:
                 st['builtin_probes'] += 1
                 o2, x2 = ask(e)
